@@ -832,9 +832,11 @@ def kill_points(entries, inject_set, every_tmp_write=6, all_points=False):
     return pts
 
 
-def translate(entries, keys_dir):
-    """system calls of one process -> rows for KeyKeeperTraceFs (consecutive equal rows merged)"""
+def translate(entries, keys_dir, attests=None):
+    """system calls of one process -> rows for KeyKeeperTraceFs (consecutive equal rows merged).  attests: the host's
+    records of the attestation requests it received from this process, in order (did it commit the latch?)"""
     rows = []
+    attests = list(attests or [])
 
     def emit(r):
         if not rows or rows[-1] != r:
@@ -861,17 +863,21 @@ def translate(entries, keys_dir):
                 emit({"e": "fs", "op": "close_tmp", "g": g})
             elif name.startswith("rename") and ok and e.get("to", "").endswith(".key"):
                 emit({"e": "fs", "op": "rename", "g": g})
+            elif name in ("unlink", "unlinkat") and ok and ext == "key":
+                emit({"e": "fs", "op": "unlink_final", "g": g})
         elif o == "host" and name in ("writev", "sendto", "sendmsg", "write") and ok:
             s = e["strs"][0] if e["strs"] else ""
             if s.startswith("GET /secure-channel/status"):
-                emit({"e": "net", "op": "status", "g": "none"})
+                emit({"e": "net", "op": "status", "g": "none", "latches": False})
             elif s.startswith("POST /secure-channel/key HTTP") or s.startswith("POST /secure-channel/key "):
-                emit({"e": "net", "op": "acquire", "g": "none"})
+                emit({"e": "net", "op": "acquire", "g": "none", "latches": False})
             elif s.startswith("POST /secure-channel/key/"):
                 guid = s[len("POST /secure-channel/key/"):].split("/")[0]
-                emit({"e": "net", "op": "attest", "g": GUID_REV.get(guid, "?" + guid)})
+                rec = attests.pop(0) if attests else {}
+                rows.append({"e": "net", "op": "attest", "g": GUID_REV.get(guid, "?" + guid),
+                             "latches": bool(rec.get("latched") and rec.get("latched") == guid)})
             elif s.startswith("GET /verif/signed"):
-                emit({"e": "net", "op": "signed", "g": "none"})
+                emit({"e": "net", "op": "signed", "g": "none", "latches": False})
     return rows
 
 
@@ -960,6 +966,9 @@ class Sweeper:
         return {"rc": r.get("rc"), "timeout": r.get("timeout", False), "entries": entries, "killed": killed, "result": res}
 
     def _observe(self, damaged):
+        q = self.rg.host.call(op="quiesce", timeout=5)
+        if not q.get("quiet"):
+            raise util.ToolError("the scripted host is still busy with a connection of an ended process")
         final, tmp, stray = read_keys_dir(self.rg.keys)
         hs = self.rg.host.call(op="state")
         lat = "none" if hs["latched"] is None else GUID_REV.get(hs["latched"], "?")
@@ -980,13 +989,14 @@ class Sweeper:
         init = self._prepare(scenario, plan)
         damaged = set(init["damaged"])
         rg = self.rg
-        rows = [{"e": "case", "id": case_id}, {"e": "spawn"}]
+        rows = [{"e": "case", "id": case_id, "final0": init["final"], "latched0": init["latched"], "damaged": sorted(damaged)},
+                {"e": "spawn"}]
         r1 = self._spawn("first", inject=(point[0], point[1]) if point else None)
         if r1["timeout"] or (r1["rc"] not in (0, -9) and not r1["killed"]):
             raise util.ToolError("case %s: first process ended rc=%s %s %s" % (case_id, r1["rc"], r1["result"], rg.agent_err()[-300:]))
-        rows += translate(r1["entries"], rg.keys)
         o1 = self._observe(damaged)
         hl1 = rg.host.call(op="log")["log"]
+        rows += translate(r1["entries"], rg.keys, [x for x in hl1 if x["kind"] == "attest"])
         base = {"restart": False, "latched0": "none", "good0": False, "acquires": sum(1 for x in hl1 if x["kind"] == "acquire"),
                 "signedGuid": "none", "signedOk": False}
         rows.append(dict({"e": "exit", "killed": bool(r1["killed"])}, **{k: o1[k] for k in ("final", "tmp", "latched", "damaged")}, **base))
@@ -1001,9 +1011,9 @@ class Sweeper:
         good0 = lat0 in o1["final"] and o1["final"][lat0] == "key" and lat0 not in damaged
         rows.append({"e": "spawn"})
         r2 = self._spawn("restart")
-        rows += translate(r2["entries"], rg.keys)
         o2 = self._observe(damaged)
         hl2 = [x for x in rg.host.call(op="log")["log"] if x["seq"] > seq0]
+        rows += translate(r2["entries"], rg.keys, [x for x in hl2 if x["kind"] == "attest"])
         signed = [x for x in hl2 if x["kind"] == "signed"]
         sg = signed[-1] if signed else {}
         rows.append(dict({"e": "exit", "killed": False, "restart": True, "latched0": lat0, "good0": bool(good0),
